@@ -116,6 +116,18 @@ def struct_templates():
     t.append("def test(a: Qint[2], b: Qint[2], c: Qint[2]) -> bool:\n    return a < b and b < c")
     t.append("def test(a: Qint[2]) -> Qint[4]:\n    return a * a")
     t.append("def test(a: Qint[2], b: Qint[2]) -> Qint[4]:\n    return (a + b) * 2")
+    # one-element tuples copied by name
+    t.append("def test(a: bool) -> bool:\n    t = (a,)\n    u = t\n    return u[0]")
+    t.append("def test(a: bool, b: bool) -> bool:\n    t = (a ^ b,)\n    u = t\n    v = u\n    return v[0] and a")
+    # multi-target assignments whose right-hand side reads targets of the same statement
+    t.append("def test(a: bool, b: bool) -> Tuple[bool, bool]:\n    a, b = b, a\n    return (a, b)")
+    t.append("def test(a: Qint[2], b: Qint[2]) -> Qint[2]:\n    a, b = b, a\n    return a - b")
+    t.append("def test(a: bool, b: bool, c: bool) -> Tuple[bool, bool, bool]:\n    a, b, c = b, c, a\n    return (a, b, c)")
+    t.append("def test(a: bool, b: bool) -> Tuple[bool, bool]:\n    a, b = True, a\n    return (a, b)")
+    t.append("def test(a: Qint[2], b: Qint[2]) -> Tuple[Qint[2], Qint[2]]:\n    for i in range(3):\n        a, b = b, a + b\n    return (a, b)")
+    t.append("def test(a: bool, b: bool, c: bool) -> bool:\n    for i in range(2):\n        a, b, c = c, a, b\n    return a and not b")
+    t.append("def test(a: Qint[2], b: Qint[2]) -> Qint[2]:\n    c, d = b, a\n    c, d = d, c\n    return c + (d << 1)")
+    t.append("def test(a: bool, b: bool) -> bool:\n    a, b = a ^ b, a\n    b, a = a, b\n    return a and not b")
     # a local conditionally re-assigned (in place operators) and returned directly
     t.append("def test(a: bool, b: bool, c: bool) -> bool:\n    d = a and b\n    if c:\n        d ^= b\n    return d")
     t.append("def test(a: bool, b: bool, c: bool) -> bool:\n    d = a or b\n    if c:\n        d = d and a\n    return d")
@@ -198,8 +210,16 @@ def int_program(rng):
         total += w
     bvars = ["p"] if rng.random() < 0.4 else []
     sig = ", ".join(f"{n}: Qint[{w}]" for n, w in vs) + ("".join(f", {b}: bool" for b in bvars))
-    kind = rng.choice(["expr", "expr", "cond", "ifexp", "stmts", "loop"])
+    kind = rng.choice(["expr", "expr", "cond", "ifexp", "stmts", "loop", "swap"])
     rw = rng.choice([2, 4, 4, 8])
+    if kind == "swap":
+        # multi-target assignments that read their own targets (swap / rotate / fibonacci step)
+        x, y = vs[0][0], vs[-1][0]
+        body = [f"    x, y = {x}, {y} + {rng.randint(0, 3)}"]
+        for _ in range(rng.randint(1, 3)):
+            body.append("    " + rng.choice(["x, y = y, x", f"x, y = y, x {rng.choice(['+', '^', '-'])} y", f"x, y = {rng.randint(0, 3)}, x",
+                                             "y, x = x, y", f"x, y = y, {rand_var_expr(rng, vs, 1)}"]))
+        return f"def test({sig}) -> Qint[{rw}]:\n" + "\n".join(body) + f"\n    return {rng.choice(['x', 'y', 'x + y', 'x - y', 'x ^ y'])}"
     if kind == "expr":
         return f"def test({sig}) -> Qint[{rw}]:\n    return {rand_var_expr(rng, vs, 3)}"
     if kind == "cond":
